@@ -3,17 +3,28 @@
 // output position and the lcp array.  Compiled against /repo's working tree on every run (ASan + UBSan).
 //
 // case line:  <algo> <rep> <ov> <lcp> <mem> <depth> <n> <hex_1> ... <hex_n>      ("-" = empty string)
-//   algo 0 sort_strings(_lcp) public overload `ov` (reps 0,1,2) / radixsort_CE3 at depth 0 (reps 3,4)
+//   algo 0 sort_strings(_lcp) public overload (reps 0,1,2) / radixsort_CE3 at depth 0 (reps 3..6)
 //        1 radixsort_CE0  2 radixsort_CE2  3 radixsort_CE3  4 radixsort_CI2  5 radixsort_CI3
 //        6 multikey_quicksort  7 insertion_sort
-//   rep  0 unsigned char*  1 const unsigned char*  2 std::string  3 std::unique_ptr<std::string>
-//        4 suffixes of a text (n = 1, hex_1 = the text; the set is all its suffixes in index order)
-// output line: ids:<i0,i1,...>|lcp:<v0,v1,...or ->|strs:<hex,... only for rep 2, else ~>
+//   rep  0 unsigned char* (UCharStringSet)  1 const unsigned char* (CUCharStringSet)  2 std::string (StdStringSet)
+//        3 std::unique_ptr<std::string> (UPtrStdStringSet)
+//        4 suffixes of a text (StringSuffixSet::Initialize; n = 1, hex_1 = the text; the set is all its suffixes)
+//        5 char* (CharStringSet)  6 const char* (CCharStringSet)
+//   ov   algo 0, reps 0/1: ov % 10 = overload: 0 unsigned char**  1 char**  2 const unsigned char**  3 const char**
+//           4 vector<char*>  5 vector<unsigned char*>  6 vector<const char*>  7.. vector<const unsigned char*>;
+//           rep 2: even std::string* / odd vector<std::string>;  ov >= 10: the memory argument is omitted (default 0)
+//        algo != 0 (not rep 4): the string-pointer view the sorter is called through
+//           0 StringPtr / StringLcpPtr over exactly the n strings
+//           1 strptr.sub(G1, n) of a larger array with guard strings before and after (also exercises size(), active(),
+//             fill_lcp(), get_lcp(), lcp()); guards and the lcp cells outside (G1, G1+n) must stay untouched
+//           2 (algos 4..7) add_shadow() + flip(G1, n) + copy_back(): the strings start in the shadow array
+// output line: ids:<i0,i1,...>|lcp:<v0,v1,...or ->|strs:<hex,... only for rep 2, else ~>     or  APIFAIL:<what>
 #include <tlx/sort/strings.hpp>
 #include <tlx/sort/strings/insertion_sort.hpp>
 #include <tlx/sort/strings/multikey_quicksort.hpp>
 #include <tlx/sort/strings/radix_sort.hpp>
 
+#include <algorithm>
 #include <cstdint>
 #include <cstdio>
 #include <cstdlib>
@@ -28,9 +39,9 @@
 
 using namespace tlx::sort_strings_detail;
 
-// the check compiles this file twice in parallel (C03_PART bit mask: 1 = reps 0,1;  2 = rep 2;  4 = reps 3,4) to cut the build time
+// the check compiles this file twice in parallel (C03_PART bit mask: 1 = reps 0,1;  2 = rep 2;  4 = reps 3,4;  8 = reps 5,6) to cut the build time
 #ifndef C03_PART
-#define C03_PART 7
+#define C03_PART 15
 #endif
 
 static const std::uint32_t POISON = 777;
@@ -64,14 +75,98 @@ static void run_detail(int algo, const Ptr& p, size_t depth, size_t mem) {
     }
 }
 
-template <typename SS>
-static void run_set(int algo, const SS& ss, bool lcp, std::uint32_t* lcpa, size_t depth, size_t mem) {
-    if (lcp) run_detail(algo, StringLcpPtr<SS, std::uint32_t>(ss, lcpa), depth, mem);
-    else run_detail(algo, StringPtr<SS>(ss), depth, mem);
+// sorters that work through any string-pointer type, including the shadow variants
+template <typename Ptr>
+static void run_detail_inplace(int algo, const Ptr& p, size_t depth, size_t mem) {
+    switch (algo) {
+    case 4: radixsort_CI2(p, depth, mem); break;
+    case 5: radixsort_CI3(p, depth, mem); break;
+    case 6: multikey_quicksort(p, depth, mem); break;
+    case 7: insertion_sort(p, depth, mem); break;
+    default: std::abort();
+    }
+}
+
+static const char* g_apifail = nullptr;
+#define API_CHECK(c) do { if (!(c) && !g_apifail) g_apifail = #c; } while (0)
+
+static const size_t G1 = 2, G2 = 3;
+
+// Runs `algo` on the n strings of `arr` through the requested view; results are left in arr / lcpa.
+//   mkguard(i) creates guard string number i, token(s) is a comparable snapshot of a String (pointer value or contents)
+template <typename SS, typename MkGuard, typename Token>
+static void run_array(int algo, int view, bool lcp, size_t depth, size_t mem,
+                      std::vector<typename SS::String>& arr, std::vector<std::uint32_t>& lcpa, MkGuard mkguard, Token token) {
+    typedef typename SS::String String;
+    const size_t n = arr.size();
+    if (view == 0) {
+        SS ss(arr.data(), arr.data() + n);
+        if (lcp) { StringLcpPtr<SS, std::uint32_t> p(ss, lcpa.data()); API_CHECK(p.with_lcp); API_CHECK(p.size() == n); run_detail(algo, p, depth, mem); }
+        else { StringPtr<SS> p(ss); API_CHECK(!p.with_lcp); API_CHECK(p.size() == n); run_detail(algo, p, depth, mem); }
+        return;
+    }
+    const size_t total = G1 + n + G2;
+    std::vector<String> full(total);
+    for (size_t i = 0; i < G1; ++i) full[i] = mkguard(i);
+    for (size_t i = 0; i < n; ++i) full[G1 + i] = std::move(arr[i]);
+    for (size_t i = 0; i < G2; ++i) full[G1 + n + i] = mkguard(G1 + i);
+    std::vector<std::string> snap;
+    for (size_t i = 0; i < total; ++i) if (i < G1 || i >= G1 + n) snap.push_back(token(full[i]));
+    std::vector<std::uint32_t> lf(total, POISON);
+    SS fs(full.data(), full.data() + total);
+    if (view == 1) {
+        if (lcp) {
+            StringLcpPtr<SS, std::uint32_t> p = StringLcpPtr<SS, std::uint32_t>(fs, lf.data()).sub(G1, n);
+            API_CHECK(p.size() == n); API_CHECK(p.active().size() == n); API_CHECK(p.lcp() == lf.data() + G1);
+            API_CHECK(n == 0 || p.active().begin() == fs.begin() + G1);
+            p.fill_lcp(123u);
+            for (size_t i = 1; i < n; ++i) API_CHECK(p.get_lcp(i) == 123u);
+            API_CHECK(lf[G1] == POISON);
+            if (n > 1) { p.set_lcp(n - 1, 7u); API_CHECK(lf[G1 + n - 1] == 7u); }
+            std::fill(lf.begin(), lf.end(), POISON);
+            run_detail(algo, p, depth, mem);
+        } else {
+            StringPtr<SS> p = StringPtr<SS>(fs).sub(G1, n);
+            API_CHECK(p.size() == n); API_CHECK(p.active().size() == n);
+            p.fill_lcp(123u); p.set_lcp(0, 5u);            // no-ops without LCP
+            run_detail(algo, p, depth, mem);
+        }
+    } else {
+        typename SS::Container shadow = fs.allocate(total);
+        SS shs(shadow);
+        std::move(fs.begin() + G1, fs.begin() + G1 + n, shs.begin() + G1);      // the strings start in the shadow array
+        if (lcp) {
+            auto sp = StringLcpPtr<SS, std::uint32_t>(fs, lf.data()).add_shadow(shs);
+            API_CHECK(!sp.flipped()); API_CHECK(sp.size() == total); API_CHECK(sp.with_lcp);
+            auto s1 = sp.sub(G1, n); API_CHECK(!s1.flipped()); API_CHECK(s1.size() == n); API_CHECK(s1.lcp() == lf.data() + G1);
+            auto s2 = sp.flip(G1, n); API_CHECK(s2.flipped()); API_CHECK(s2.size() == n); API_CHECK(s2.lcp() == lf.data() + G1);
+            API_CHECK(n == 0 || (s2.active().begin() == shs.begin() + G1 && s2.shadow().begin() == fs.begin() + G1));
+            auto s3 = s2.copy_back(); API_CHECK(!s3.flipped()); API_CHECK(s3.size() == n);
+            API_CHECK(n == 0 || s3.active().begin() == fs.begin() + G1);
+            auto s4 = s3.copy_back(); API_CHECK(!s4.flipped());                  // nothing to copy
+            run_detail_inplace(algo, s3, depth, mem);
+        } else {
+            auto sp = StringPtr<SS>(fs).add_shadow(shs);
+            API_CHECK(!sp.flipped()); API_CHECK(sp.size() == total); API_CHECK(!sp.with_lcp);
+            auto s1 = sp.sub(G1, n); API_CHECK(!s1.flipped()); API_CHECK(s1.size() == n);
+            auto s2 = sp.flip(G1, n); API_CHECK(s2.flipped()); API_CHECK(s2.size() == n);
+            API_CHECK(n == 0 || (s2.active().begin() == shs.begin() + G1 && s2.shadow().begin() == fs.begin() + G1));
+            auto s3 = s2.copy_back(); API_CHECK(!s3.flipped()); API_CHECK(s3.size() == n);
+            API_CHECK(n == 0 || s3.active().begin() == fs.begin() + G1);
+            s3.fill_lcp(1u); s3.set_lcp(0, 1u);
+            run_detail_inplace(algo, s3, depth, mem);
+        }
+        SS::deallocate(shadow);
+    }
+    size_t k = 0;
+    for (size_t i = 0; i < total; ++i) if (i < G1 || i >= G1 + n) { API_CHECK(token(full[i]) == snap[k]); ++k; }
+    for (size_t i = 0; i < total; ++i) if (i <= G1 || i >= G1 + n) API_CHECK(lf[i] == POISON);
+    for (size_t i = 0; i < n; ++i) { arr[i] = std::move(full[G1 + i]); lcpa[i] = lf[G1 + i]; }
 }
 
 static void print_result(const std::vector<long>& ids, bool lcp, const std::vector<std::uint32_t>& lcpa,
                          const std::vector<std::string>* strs) {
+    if (g_apifail) { printf("APIFAIL:%s\n", g_apifail); return; }
     std::string out = "ids:";
     char buf[32];
     for (size_t i = 0; i < ids.size(); ++i) { snprintf(buf, sizeof buf, i ? ",%ld" : "%ld", ids[i]); out += buf; }
@@ -82,6 +177,22 @@ static void print_result(const std::vector<long>& ids, bool lcp, const std::vect
     if (!strs) out += "~";
     else for (size_t i = 0; i < strs->size(); ++i) { if (i) out += ","; out += tohex((*strs)[i]); }
     puts(out.c_str());
+}
+
+static std::string ptr_token(const void* p) { char b[32]; snprintf(b, sizeof b, "%p", p); return b; }
+static unsigned char g_guard_bufs[8][8] = { "\x7fg0", "", "\x01g2", "zz", "\xffg4", "a", "b", "c" };
+
+// C strings: reps 0, 1 (unsigned), 5, 6 (char)
+template <typename SS, typename CharT>
+static void run_cstring_set(int algo, int view, bool lcp, size_t depth, size_t mem,
+                            std::vector<unsigned char*>& ptrs, std::vector<std::uint32_t>& lcpa) {
+    typedef typename SS::String String;                       // CharT*
+    std::vector<String> arr(ptrs.size());
+    for (size_t i = 0; i < ptrs.size(); ++i) arr[i] = reinterpret_cast<String>(ptrs[i]);
+    run_array<SS>(algo, view, lcp, depth, mem, arr, lcpa,
+                  [](size_t i) { return reinterpret_cast<String>(g_guard_bufs[i]); },
+                  [](const String& s) { return ptr_token(s); });
+    for (size_t i = 0; i < ptrs.size(); ++i) ptrs[i] = reinterpret_cast<unsigned char*>(const_cast<typename std::remove_const<CharT>::type*>(arr[i]));
 }
 
 int main(int argc, char** argv) {
@@ -97,9 +208,12 @@ int main(int argc, char** argv) {
         bool lcp = lcpi != 0;
         std::vector<std::string> strs(n);
         for (size_t i = 0; i < n; ++i) { std::string h; is >> h; strs[i] = unhex(h); }
+        g_apifail = nullptr;
+        const int view = algo == 0 ? 0 : ov;
+        (void)view;
 
-#if C03_PART & 1
-        if (rep == 0 || rep == 1) {
+#if C03_PART & 9
+        if (((C03_PART & 1) && (rep == 0 || rep == 1)) || ((C03_PART & 8) && (rep == 5 || rep == 6))) {
             // individually allocated, exactly sized NUL-terminated buffers (ASan sees any over-read)
             std::vector<unsigned char*> ptrs(n);
             std::unordered_map<const void*, long> idx;
@@ -111,39 +225,37 @@ int main(int argc, char** argv) {
             }
             std::vector<unsigned char*> orig(ptrs);
             std::vector<std::uint32_t> lcpa(n, POISON);
-            if (algo == 0) {
-                // the public overloads
-                if (!lcp) switch (ov) {
-                    case 0: tlx::sort_strings(ptrs.data(), n, mem); break;
-                    case 1: tlx::sort_strings(reinterpret_cast<char**>(ptrs.data()), n, mem); break;
-                    case 2: tlx::sort_strings(const_cast<const unsigned char**>(ptrs.data()), n, mem); break;
-                    case 3: tlx::sort_strings((const char**)(ptrs.data()), n, mem); break;
-                    case 4: { std::vector<char*> v(n); for (size_t i = 0; i < n; ++i) v[i] = reinterpret_cast<char*>(ptrs[i]);
-                              tlx::sort_strings(v, mem); for (size_t i = 0; i < n; ++i) ptrs[i] = reinterpret_cast<unsigned char*>(v[i]); break; }
-                    case 5: tlx::sort_strings(ptrs, mem); break;
-                    case 6: { std::vector<const char*> v(n); for (size_t i = 0; i < n; ++i) v[i] = reinterpret_cast<const char*>(ptrs[i]);
-                              tlx::sort_strings(v, mem); for (size_t i = 0; i < n; ++i) ptrs[i] = reinterpret_cast<unsigned char*>(const_cast<char*>(v[i])); break; }
-                    default: { std::vector<const unsigned char*> v(ptrs.begin(), ptrs.end());
-                              tlx::sort_strings(v, mem); for (size_t i = 0; i < n; ++i) ptrs[i] = const_cast<unsigned char*>(v[i]); break; }
-                } else switch (ov) {
-                    case 0: tlx::sort_strings_lcp(ptrs.data(), n, lcpa.data(), mem); break;
-                    case 1: tlx::sort_strings_lcp(reinterpret_cast<char**>(ptrs.data()), n, lcpa.data(), mem); break;
-                    case 2: tlx::sort_strings_lcp(const_cast<const unsigned char**>(ptrs.data()), n, lcpa.data(), mem); break;
-                    case 3: tlx::sort_strings_lcp((const char**)(ptrs.data()), n, lcpa.data(), mem); break;
-                    case 4: { std::vector<char*> v(n); for (size_t i = 0; i < n; ++i) v[i] = reinterpret_cast<char*>(ptrs[i]);
-                              tlx::sort_strings_lcp(v, lcpa.data(), mem); for (size_t i = 0; i < n; ++i) ptrs[i] = reinterpret_cast<unsigned char*>(v[i]); break; }
-                    case 5: tlx::sort_strings_lcp(ptrs, lcpa.data(), mem); break;
-                    case 6: { std::vector<const char*> v(n); for (size_t i = 0; i < n; ++i) v[i] = reinterpret_cast<const char*>(ptrs[i]);
-                              tlx::sort_strings_lcp(v, lcpa.data(), mem); for (size_t i = 0; i < n; ++i) ptrs[i] = reinterpret_cast<unsigned char*>(const_cast<char*>(v[i])); break; }
-                    default: { std::vector<const unsigned char*> v(ptrs.begin(), ptrs.end());
-                              tlx::sort_strings_lcp(v, lcpa.data(), mem); for (size_t i = 0; i < n; ++i) ptrs[i] = const_cast<unsigned char*>(v[i]); break; }
+            if (false) {}
+#if C03_PART & 1
+            else if (algo == 0 && rep <= 1) {
+                // the public overloads, with the memory argument passed or omitted (default 0)
+                const bool omit = ov >= 10;
+                if (omit && mem != 0) std::abort();
+                auto call = [&](auto&&... a) {
+                    if (lcp) { if (omit) tlx::sort_strings_lcp(a..., lcpa.data()); else tlx::sort_strings_lcp(a..., lcpa.data(), mem); }
+                    else { if (omit) tlx::sort_strings(a...); else tlx::sort_strings(a..., mem); }
+                };
+                switch (ov % 10) {
+                case 0: call(ptrs.data(), n); break;
+                case 1: call(reinterpret_cast<char**>(ptrs.data()), n); break;
+                case 2: call(const_cast<const unsigned char**>(ptrs.data()), n); break;
+                case 3: call((const char**)(ptrs.data()), n); break;
+                case 4: { std::vector<char*> v(n); for (size_t i = 0; i < n; ++i) v[i] = reinterpret_cast<char*>(ptrs[i]);
+                          call(v); for (size_t i = 0; i < n; ++i) ptrs[i] = reinterpret_cast<unsigned char*>(v[i]); break; }
+                case 5: call(ptrs); break;
+                case 6: { std::vector<const char*> v(n); for (size_t i = 0; i < n; ++i) v[i] = reinterpret_cast<const char*>(ptrs[i]);
+                          call(v); for (size_t i = 0; i < n; ++i) ptrs[i] = reinterpret_cast<unsigned char*>(const_cast<char*>(v[i])); break; }
+                default: { std::vector<const unsigned char*> v(ptrs.begin(), ptrs.end());
+                          call(v); for (size_t i = 0; i < n; ++i) ptrs[i] = const_cast<unsigned char*>(v[i]); break; }
                 }
-            } else if (rep == 0) {
-                run_set(algo, UCharStringSet(ptrs.data(), ptrs.data() + n), lcp, lcpa.data(), depth, mem);
-            } else {
-                const unsigned char** cp = const_cast<const unsigned char**>(ptrs.data());
-                run_set(algo, CUCharStringSet(cp, cp + n), lcp, lcpa.data(), depth, mem);
             }
+            else if (rep == 0) run_cstring_set<UCharStringSet, unsigned char>(algo, view, lcp, depth, mem, ptrs, lcpa);
+            else if (rep == 1) run_cstring_set<CUCharStringSet, const unsigned char>(algo, view, lcp, depth, mem, ptrs, lcpa);
+#endif
+#if C03_PART & 8
+            else if (rep == 5) run_cstring_set<CharStringSet, char>(algo, view, lcp, depth, mem, ptrs, lcpa);
+            else if (rep == 6) run_cstring_set<CCharStringSet, const char>(algo, view, lcp, depth, mem, ptrs, lcpa);
+#endif
             std::vector<long> ids(n);
             for (size_t i = 0; i < n; ++i) { auto it = idx.find(ptrs[i]); ids[i] = it == idx.end() ? -1 : it->second; }
             print_result(ids, lcp, lcpa, nullptr);
@@ -157,10 +269,17 @@ int main(int argc, char** argv) {
             std::vector<std::string> v(strs);
             std::vector<std::uint32_t> lcpa(n, POISON);
             if (algo == 0) {
-                if (!lcp) { if (ov % 2 == 0) tlx::sort_strings(v.data(), n, mem); else tlx::sort_strings(v, mem); }
-                else { if (ov % 2 == 0) tlx::sort_strings_lcp(v.data(), n, lcpa.data(), mem); else tlx::sort_strings_lcp(v, lcpa.data(), mem); }
+                const bool omit = ov >= 10;
+                if (omit && mem != 0) std::abort();
+                auto call = [&](auto&&... a) {
+                    if (lcp) { if (omit) tlx::sort_strings_lcp(a..., lcpa.data()); else tlx::sort_strings_lcp(a..., lcpa.data(), mem); }
+                    else { if (omit) tlx::sort_strings(a...); else tlx::sort_strings(a..., mem); }
+                };
+                if (ov % 2 == 0) call(v.data(), n); else call(v);
             } else {
-                run_set(algo, StdStringSet(v.data(), v.data() + n), lcp, lcpa.data(), depth, mem);
+                run_array<StdStringSet>(algo, view, lcp, depth, mem, v, lcpa,
+                                        [](size_t i) { return std::string("\x7fguard") + char('0' + i); },
+                                        [](const std::string& s) { return s; });
             }
             std::vector<long> ids(n, 0);
             print_result(ids, lcp, lcpa, &v);
@@ -174,7 +293,9 @@ int main(int argc, char** argv) {
             std::unordered_map<const void*, long> idx;
             for (size_t i = 0; i < n; ++i) { v[i].reset(new std::string(strs[i])); idx[v[i].get()] = static_cast<long>(i); }
             std::vector<std::uint32_t> lcpa(n, POISON);
-            run_set(algo, UPtrStdStringSet(v.data(), v.data() + n), lcp, lcpa.data(), depth, mem);
+            run_array<UPtrStdStringSet>(algo, view, lcp, depth, mem, v, lcpa,
+                                        [](size_t i) { return std::unique_ptr<std::string>(new std::string(1, char('p' + i))); },
+                                        [](const std::unique_ptr<std::string>& s) { return ptr_token(s.get()); });
             std::vector<long> ids(n);
             for (size_t i = 0; i < n; ++i) { auto it = idx.find(v[i].get()); ids[i] = it == idx.end() ? -1 : it->second; }
             print_result(ids, lcp, lcpa, nullptr);
@@ -185,8 +306,11 @@ int main(int argc, char** argv) {
             std::string text = n ? strs[0] : std::string();
             std::vector<size_t> sa;
             StringSuffixSet ss = StringSuffixSet::Initialize(text, sa);
+            API_CHECK(ss.size() == text.size()); API_CHECK(sa.size() == text.size());
+            for (size_t i = 0; i < sa.size(); ++i) API_CHECK(sa[i] == i);
             std::vector<std::uint32_t> lcpa(sa.size(), POISON);
-            run_set(algo, ss, lcp, lcpa.data(), depth, mem);
+            if (lcp) run_detail(algo, StringLcpPtr<StringSuffixSet, std::uint32_t>(ss, lcpa.data()), depth, mem);
+            else run_detail(algo, StringPtr<StringSuffixSet>(ss), depth, mem);
             std::vector<long> ids(sa.size());
             for (size_t i = 0; i < sa.size(); ++i) ids[i] = sa[i] < text.size() ? static_cast<long>(sa[i]) : -1;
             print_result(ids, lcp, lcpa, nullptr);
